@@ -20,7 +20,7 @@ for spec in sys.argv[3:]:
     for p in props.split(','):
         t0 = time.time()
         env = dict(os.environ, SHV_REPO=WT, SHV_OUT='/tmp/seedwork/mut-out')
-        r = subprocess.run(['/verif/check', p, '--tier', os.environ.get('TIER', 'quick')], cwd='/verif', env=env, stdout=subprocess.PIPE, stderr=subprocess.DEVNULL, text=True)
+        r = subprocess.run([os.path.join(os.path.dirname(os.path.dirname(os.path.abspath(__file__))), 'check'), p, '--tier', os.environ.get('TIER', 'quick')], cwd=os.path.dirname(os.path.dirname(os.path.abspath(__file__))), env=env, stdout=subprocess.PIPE, stderr=subprocess.DEVNULL, text=True)
         viol = [l.split('replay=')[1].split('/')[-1] for l in r.stdout.splitlines() if l.startswith('VIOLATION')]
         rec = {'seed': seed, 'prop': p, 'rc': r.returncode, 'violations': viol, 'undecided': [l[:200] for l in r.stdout.splitlines() if l.startswith('UNDECIDED')][:3], 'wall': round(time.time() - t0)}
         open(LOG, 'a').write(json.dumps(rec) + '\n')
